@@ -38,7 +38,9 @@ func VerifControllers(res string) []VerifController {
 func (c *ThrottlingChecker) VerifLastPassed() int64 { return atomic.LoadInt64(&c.lastPassedTime) }
 
 // VerifLastPassedAddr is the address of that word.
-func (c *ThrottlingChecker) VerifLastPassedAddr() unsafe.Pointer { return unsafe.Pointer(&c.lastPassedTime) }
+func (c *ThrottlingChecker) VerifLastPassedAddr() unsafe.Pointer {
+	return unsafe.Pointer(&c.lastPassedTime)
+}
 
 // VerifWarmUp is a copy of a warm-up calculator's private state.
 type VerifWarmUp struct {
